@@ -288,8 +288,8 @@ Proof.
   - (* OFrameUnref *)
     destruct (live_some h1 w Hpre) as [c Hw].
     destruct (life_ok f) as [Hun _]. destruct (life_fate f) as [Huf _].
-    pose proof (Hun [] h1 w HI1 (detached_nil h1) Hpre (fun x => x) h1 eq_refl) as Hu.
-    pose proof (Huf [] h1 w c HI1 (detached_nil h1) Hw (fun x => x)) as Hf.
+    pose proof (Hun [] h1 w HI1 (detached_nil h1) Hpre (fun x => x) (fun _ _ _ (x : In root []) => x) h1 eq_refl) as Hu.
+    pose proof (Huf [] h1 w c HI1 (detached_nil h1) Hw (fun x => x) (fun _ (x : In root []) => x)) as Hf.
     pose proof (ktr_unref f w h1) as Ht.
     destruct (unref fixed f w h1) as [u h2| |]; [|contradiction|exact I].
     destruct Hu as [HI2 [_ Sh]]. destruct Hf as [F1 F2]. split; [exact HI2|]. split; [|exact Ht].
